@@ -129,6 +129,17 @@ def call(kind, kwargs):
             import time
 
             time.sleep(float(os.environ.get("XSIM_SLOW_SECONDS", "0.4")))
+        kp = os.environ.get("XSIM_KILL_KEYS")
+        if kp and os.path.exists(kp) and not os.path.exists(kp + ".fired"):
+            # the stub scheduler pre-empts the job (SIGKILL to its whole process group,
+            # worker pool included) at the instant this setting starts being evaluated
+            with open(kp) as f:
+                kill = {tuple((a, b) for a, b in kk) for kk in json.load(f)}
+            if k in kill:
+                import signal
+
+                open(kp + ".fired", "w").close()
+                os.killpg(os.getpgid(0), signal.SIGKILL)
     LOG.append((kind, k))
     if POISON and k in POISON:
         raise FnError("poisoned setting %r" % (k,))
